@@ -158,6 +158,17 @@ def run(ctx):
                 n_k += 1
                 v = kw.get("rng")
                 ok = v is not None and ((isinstance(v, ast.Attribute) and v.attr == "rng") or (isinstance(v, ast.Name) and v.id == "rng"))
+                if v is not None and not ok:
+                    # resolve aliases on values
+                    evk = Evaluator(repo, max_depth=0, assume=lambda cnd: None)
+                    try:
+                        evk.run(f, f.cls)
+                        for e in evk.events:
+                            if e.node is n:
+                                val = dict(e.kwargs).get("rng")
+                                ok = val is not None and any(l in (self_attr("rng"), T.atom("rng")) for l in (list(T.phi_leaves(val)) + (list(val[1]) if val[0] == "or" else [])))
+                    except Exception:
+                        pass
                 ctx.decide(ok, "C20.kernel", f.ident, loc_of(f, n), "the minipcn kernel is constructed with the sampler's generator (rng=)",
                            "the minipcn kernel is constructed without the sampler's generator", disc="minipcn")
             if (mod == "emcee" and d == "EnsembleSampler") or d == "emcee.EnsembleSampler":
